@@ -313,8 +313,8 @@ class CoordPayload():
 
         return self
 
-    def __div__(self, other):
-        """__div__"""
+    def __truediv__(self, other):
+        """__truediv__"""
 
         if isinstance(other, CoordPayload):
             ans = self.payload / other.payload
@@ -323,13 +323,13 @@ class CoordPayload():
 
         return ans
 
-    def __rdiv__(self, other):
-        """__rdiv__"""
+    def __rtruediv__(self, other):
+        """__rtruediv__"""
 
         return other / self.payload
 
-    def __idiv__(self, other):
-        """__idiv__"""
+    def __itruediv__(self, other):
+        """__itruediv__"""
 
         if isinstance(other, CoordPayload):
             self.payload /= other.payload
@@ -338,6 +338,58 @@ class CoordPayload():
 
         return self
 
+
+    def __floordiv__(self, other):
+        """__floordiv__"""
+
+        if isinstance(other, CoordPayload):
+            return self.payload // other.payload
+
+        return self.payload // other
+
+    def __rfloordiv__(self, other):
+        """__rfloordiv__"""
+
+        return other // self.payload
+
+    def __lshift__(self, other):
+        """__lshift__"""
+
+        if isinstance(other, CoordPayload):
+            return self.payload << other.payload
+
+        return self.payload << other
+
+    def __rlshift__(self, other):
+        """__rlshift__"""
+
+        return other << self.payload
+
+    def __and__(self, other):
+        """__and__"""
+
+        if isinstance(other, CoordPayload):
+            return self.payload & other.payload
+
+        return self.payload & other
+
+    def __rand__(self, other):
+        """__rand__"""
+
+        return other & self.payload
+
+    def __or__(self, other):
+        """__or__"""
+
+        if isinstance(other, CoordPayload):
+            return self.payload | other.payload
+
+        return self.payload | other
+
+    def __ror__(self, other):
+        """__ror__"""
+
+        return other | self.payload
 
 #
 # Comparison operations
